@@ -1,3 +1,121 @@
-(* C01 — statements are added when the corresponding facts file lands *)
-From SV Require Import Bytes Lexer Tables ArgCheck Machine Printer GenTables.
-Theorem C01_placeholder : True. Proof. exact I. Qed.
+(* C01 — the parser accepts exactly the valid scripts of its supported language.
+
+   Model: sieve/Lexer.v, sieve/ArgCheck.v, sieve/Machine.v over gen/GenTables.v (regenerated from
+   /repo on every run).  Specification of "legal, correctly typed and correctly ordered
+   arguments": sieve/ArgSpec.v [legal] (optional tag groups in any order, each tag possibly
+   followed by a typed parameter, then the required positionals in order).
+   Proved (sieve/ArgCheckFacts.v, sieve/MachineFacts.v):
+     - the table interpreter implements that specification for every well-formed definition
+       (C01_argcheck_correct, C01_accepts_iff_legal), including the values recorded;
+     - structural soundness of acceptance: an accepted script has balanced brackets, no pending
+       command, no pending expectation (C01_accept_final_state); a script is rejected as soon as
+       a token does not fit (the machine is a fold over tokens that stops at the first failure).
+   Full statements C01_complete / C01_sound (DESIGN.md Appendix B) relate [parse] to the RFC 5228
+   generic grammar; they are NOT proved here — the executable oracle harness/sieve_spec.py (generic
+   grammar + frozen signatures) is compared with the implementation on the exhaustive token
+   enumeration and the generated scripts by the check, and the model is compared with the
+   implementation on the same inputs. *)
+From Coq Require Import String.
+From Coq Require Import List NArith Bool Arith.
+From SV Require Import Bytes Lexer Tables ArgCheck ArgSpec Machine Printer GenTables.
+Import ListNotations.
+Local Open Scope nat_scope.
+From SV Require Import ArgCheckFacts GateFacts.
+
+(* feeding an argument sequence to check_next_arg: complete / incomplete / rejected exactly as the specification says, with the same recorded values *)
+Theorem C01_argcheck_correct :
+  forall (d : cmddef) (loaded : list bytes) (args : list argument),
+  wf_def d = true ->
+  fixed_arity d = true ->
+  Forall (fun a : argument => arg_shape_ok a = true) args ->
+  match legal d loaded args with
+  | LComplete am em =>
+      exists f : frame,
+        feed (new_frame d AtTop) args loaded = FOk f /\
+        iscomplete f None = true /\ f_args f = am /\ f_extra f = em
+  | LIncomplete am em =>
+      exists f : frame,
+        feed (new_frame d AtTop) args loaded = FOk f /\
+        iscomplete f None = false /\ f_args f = am /\ f_extra f = em
+  | LReject e => feed (new_frame d AtTop) args loaded = FStop e
+  end.
+Proof. exact ArgCheckFacts.argcheck_correct. Qed.
+Print Assumptions C01_argcheck_correct.
+
+(* acceptance of an argument list iff it is legal *)
+Theorem C01_accepts_iff_legal :
+  forall (d : cmddef) (loaded : list bytes) (args : list argument),
+  wf_def d = true ->
+  fixed_arity d = true ->
+  Forall (fun a : argument => arg_shape_ok a = true) args ->
+  (exists f : frame, feed (new_frame d AtTop) args loaded = FOk f /\ iscomplete f None = true) <->
+  (exists am em : list (bytes * aval), legal d loaded args = LComplete am em).
+Proof. exact ArgCheckFacts.accepts_iff_legal. Qed.
+Print Assumptions C01_accepts_iff_legal.
+
+(* no AttributeError inside the interpreter *)
+Theorem C01_argcheck_never_crashes :
+  forall (d : cmddef) (a : attach) (loaded : list bytes) (args : list argument),
+  wf_def d = true ->
+  fixed_arity d = true ->
+  Forall (fun x : argument => arg_shape_ok x = true) args ->
+  feed (new_frame d a) args loaded <> FCrash.
+Proof. exact ArgCheckFacts.feed_never_crashes. Qed.
+Print Assumptions C01_argcheck_never_crashes.
+
+(* instantiated with every well-formed command of the tables generated from /repo *)
+Theorem C01_generated_tables :
+  forall (key : bytes) (d : cmddef) (loaded : list bytes) (args : list argument),
+  lookup_cmd gen_tables key = Some d ->
+  wf_def d = true ->
+  Forall (fun a : argument => arg_shape_ok a = true) args -> corr_stmt d AtTop loaded args.
+Proof. exact ArgCheckFacts.gen_tables_argcheck_correct. Qed.
+Print Assumptions C01_generated_tables.
+
+(* an accepted script ends with an empty command stack, balanced brackets and nothing expected *)
+Theorem C01_accept_final_state :
+  forall (T : tables) (text : bytes) (r : list node),
+  parse T text = Accept r ->
+  exists st : pstate,
+    r = p_result st /\
+    reachable T st /\ p_stack st = [] /\ p_brackets st = [] /\ p_expected st = None.
+Proof. exact GateFacts.parse_accept_reachable. Qed.
+Print Assumptions C01_accept_final_state.
+
+(* which commands of the current tables the interpreter theorem covers (re-checked on every run) *)
+Example C01_wf_commands :
+  map fst (filter (fun kd => wf_def (snd kd)) gen_tables) =
+  [bs "address"; bs "body"; bs "currentdate"; bs "date"; bs "discard"; bs "else"; bs "envelope";
+   bs "exists"; bs "false"; bs "fileinto"; bs "header"; bs "redirect"; bs "reject"; bs "require";
+   bs "set"; bs "size"; bs "stop"; bs "true"; bs "vacation"].
+Proof. vm_compute. reflexivity. Qed.
+
+(* the others: structural commands (test arguments are fed by the machine) and the known findings
+   keep (optional-only) and setflag/addflag/removeflag/hasflag (optional positional) *)
+Example C01_other_commands :
+  map fst (filter (fun kd => negb (wf_def (snd kd))) gen_tables) =
+  [bs "addflag"; bs "allof"; bs "anyof"; bs "elsif"; bs "hasflag"; bs "if"; bs "keep"; bs "not";
+   bs "removeflag"; bs "setflag"].
+Proof. vm_compute. reflexivity. Qed.
+
+(* verdicts of the model on concrete scripts of each class the property names *)
+Example C01_verdicts :
+  map (verdict gen_tables)
+      [bs "require [""fileinto"", ""envelope""]; if anyof (header :contains ""a"" ""b"", not exists [""x"",""y""]) { fileinto ""z""; } elsif true { stop; } else { keep; }";
+       bs "IF TRUE { KEEP; }";
+       bs "keep";                         (* missing semicolon *)
+       bs "if true { keep; ";             (* unbalanced *)
+       bs "frob;";                        (* unknown command *)
+       bs "true;";                        (* test as command *)
+       bs "if keep { }";                  (* action as test *)
+       bs "stop { }";                     (* block after an action *)
+       bs "else { }";                     (* else not after if *)
+       bs "redirect :bogus ""a"";";       (* illegal tag *)
+       bs "redirect 10;";                 (* ill-typed *)
+       bs "redirect ""a"" ""b"";";        (* surplus *)
+       bs "if header :comparator ""i;nope"" :is ""a"" ""b"" { }";   (* bad value for a tag's parameter *)
+       bs "if anyof () { }";              (* empty test list *)
+       bs "redirect [];";                 (* empty string list *)
+       bs "fileinto ""x"";"]              (* extension not required *)
+  = [true; true; false; false; false; false; false; false; false; false; false; false; false; false; false; false].
+Proof. vm_compute. reflexivity. Qed.
